@@ -306,6 +306,7 @@ def run(ctx):
               f"union discriminator key: written {sorted(ser_consts)}, matched by the field visitors {sorted(consts)}; must be the single constant \"type\" on both sides", instance="discriminator \"type\" on both sides")
     # ---------------- R2.4-R2.6 primitive validators shared with C15 / C16 / C10 (the documents C02 must accept / reject)
     from . import c15, c16, c10, c14
+    ctx.include(c10, {"R10.5"}, "R2.8", "generated enums must read and write the declared value names")
     ctx.include(c14, {"R14.3"}, "R2.7", "set elements / map keys that differ only in the length of a list<double> must stay distinct when a document is read (the order decides set membership)")
     ctx.include(c15, {"O2", "O3"}, "R2.4", "every safelong in [-(2^53-1), 2^53-1] must be accepted and everything outside rejected")
     ctx.include(c16, {"R16.2"}, "R2.5", "malformed bearer tokens / rids must be rejected and well-formed ones accepted")
